@@ -181,7 +181,7 @@ PeerF(P, a, called) ==
 -----------------------------------------------------------------------------
 (* pool_status (pool/status): an unauthenticated dashboard, served from a     *)
 (* cache for StatusCache seconds; a fresh answer describes the store as it is *)
-StatusCache == 60
+StatusCache == 60 * (Expire \div 120)    \* one minute (the time unit is Expire/120)
 StatusFresh(P) == ~(P.statc.valid /\ P.statc.at + StatusCache > P.now)
 
 \* is `val` a correct fresh answer in state P ?
